@@ -22,7 +22,7 @@ TEXT = {
                  "mergeRowRanges have the same union, are pairwise separated and ordered, and scanning them in turn visits exactly rows.filter(inRowSet), hence each row once in "
                  "ascending order (successor lemma k<x <-> k++[0]<=x, merge-loop invariants, flatMap-over-separated-ranges lemma); empty RowSet = whole table; inverted range rejected; "
                  "rows_limit = take. Tied to the code by the complete enumeration the property asks for (every set of <=2 ranges x <=1 key over the 7 adversarial keys, 3 engines) "
-                 "plus random programs and multi-message tables. Chunk-stream well-formedness is checked by the harness's client-side decoder.",
+                 "plus random programs and multi-message tables. The merge phase works in place (write pointer trailing the read index): that array loop, written with Go's reads/writes/re-slice, is proved to compute exactly the functional fold. Chunk stream: decode (encode rows) = rows for every list of rows (decoder = the client state machine: key/family/qualifier on a row's first chunk, one commit, no orphan chunk), messages concatenate to the stream and are never empty. SampleRowKeys: for EVERY sequence of random draws the answer is a subsequence of the stored keys ending with the last, offsets non-decreasing; the judge used on the implementation's answers (400 calls per request) is proved exact and is evaluated in Lean on every answer and every chunk stream seen. keysOutOfRange and messageOnInvalidKeyRanges are regenerated from the Go text on every run and proved equal to the Model's.",
         "note": COMMON_NOTE,
         "technique": "Lean 4 proof (order lemmas, loop invariants, induction over sorted rows); exhaustive + random differential correspondence",
     },
@@ -67,8 +67,8 @@ TEXT = {
     },
     "C16": {
         "level": "Theorems: for every GC rule tree (mutual induction) applyGC retains exactly the first keep(rule) cells of the descending column; max-age retains exactly ts >= now-age; union = shortest "
-                 "member prefix; unsupported rules and rule-less families untouched; emptied rows removed; other tables untouched; quiescence test; the pass collects the row as stored at visit time. "
-                 "Tied to the code by forced passes with an injected clock at the boundaries, and by passes interleaved with client writes at every lock reversal (yield hook).",
+                 "member prefix; unsupported rules and rule-less families untouched; emptied rows removed; other tables untouched; the pass collects the row as stored at visit time; the background loop's (non-forced) pass leaves a table alone unless its activity stamps say quiet, and quiet <-> written (or created) since the last pass and neither read nor written for quiesceNanos, stated over the table's history — so a request less than five minutes ago keeps the pass away. "
+                 "Tied to the code by forced passes with an injected clock at the boundaries, and by passes interleaved with client writes at every lock reversal (yield hook), and by the loop's own pass tried after controlled amounts of idle time (hooks Idle/TryGC) between valid and rejected requests.",
         "note": COMMON_NOTE + " The timer that decides when a pass runs is not modelled.",
         "technique": "Lean 4 proof (mutual structural induction over rule trees); differential correspondence incl. hook-driven interleavings",
     },
@@ -169,10 +169,10 @@ TEXT = {
     "C20": {
         "level": "PARTIAL. Theorems: Go's partial operations (slice, index, sort.Search) are modelled explicitly and the emulators' functions that slice or index with bounds computed from request "
                  "data (DeleteFromColumn range removal, GC max-age / max-versions, the three cell-count filters, the 8-byte RMW decode, prefix comparison, resumable truncation, compose / rewrite "
-                 "path splitting, batch Content-ID) are proved never to fault for EVERY input (negative counts do fault: that is why they are validated up front). The inventory of such sites is "
+                 "path splitting, batch Content-ID, the in-place merge of mergeSimpleRanges and the in-place compaction of scrubRow/scrubFam — also proved equal to the Model's folds —, escapeUTF's table lookups, the last-chunk and file-extension lookups) are proved never to fault for EVERY input (negative counts do fault: that is why they are validated up front). The inventory of such sites is "
                  "regenerated from the source on every run and compared. Everything a sequential model cannot exhibit is SEARCHED, not proved: structure-aware perturbation of valid requests to "
                  "every endpoint / RPC with a probe after each (no panic, no hang, well-formed response, stored data intact), batch parts compared with the same requests sent alone, a concurrent "
-                 "admin/data mix in a child process (a fatal runtime error or, in the thorough tier, a data race kills it), plus the lock-discipline facts.",
+                 "admin/data mix in a child process built with the race detector (a fatal runtime error or a data race kills it; abandoned scans, opposite-direction rewrites and schema changes of a table being created are in the mix), plus the lock-discipline facts (lock key per handler, Lock/Unlock sequence per function). A request that never returns, or a crash of the whole process, is reported as a violation with the program in flight as the replay.",
         "note": COMMON_NOTE + " This property is claimed as partial: absence of races, hangs and leaks is not a theorem.",
         "technique": "Lean 4 proof of fault-freedom for the modelled partial operations + regenerated site inventory; structure-aware fuzzing and concurrent mix as search (not proof)",
     },
